@@ -23,6 +23,7 @@ type View struct {
 	PeerCerts     [][]byte
 	EKM           []byte
 	TLSUnique     []byte // tls-unique channel binding as reported by ConnectionState
+	SNI           string // ConnectionState.ServerName (servers: the name the client asked for)
 	EKMErr        error
 	Read          []byte // application bytes received
 	ReadErr       error  // error that ended reading (io.EOF for a clean close)
@@ -123,6 +124,7 @@ func GMEnd(cfg *gmtls.Config, client bool, a App, v *View, keep **gmtls.Conn) fu
 		v.Proto = st.NegotiatedProtocol
 		v.OCSP = st.OCSPResponse
 		v.TLSUnique = append([]byte{}, st.TLSUnique...)
+		v.SNI = st.ServerName
 		for _, pc := range st.PeerCertificates {
 			v.PeerCerts = append(v.PeerCerts, pc.Raw)
 		}
